@@ -11,7 +11,7 @@ N_QUICK, N_THOROUGH = 60000, 2000000
 T_QUICK, T_THOROUGH = 70, 1500
 FLOORS = {"objects": 4000, "nested_views": 10000, "struct_attr_checks": 3000, "array_attr_checks": 5000,
           "write_through_checks": 5000, "growths": 500, "rereads_after_growth": 1000,
-          "nplike_write_through_checks": 2000, "seen:ar2doD": 20, "seen:ar2dD": 50, "seen:ar3soS": 20, "seen:ref": 300}
+          "nplike_write_through_checks": 2000, "built_from_array_of_other_class": 800, "seen:ar2doD": 20, "seen:ar2dD": 50, "seen:ar3soS": 20, "seen:ref": 300}
 RULE = ("random type AST x value x placement (as C01); for the root and EVERY nested compound (fields, items, "
         "reference targets) a view T._from_buffer(buffer, offset) is compared with the node reached through the "
         "constructor handle: full model comparison of both, equality of _offset/_shape/_strides/_size/len, "
@@ -56,7 +56,13 @@ def run_case(w, rng):
     t, env = c.t, c.env
     try:
         try:
-            h = build_root(c, rng)
+            if t["k"] == "ar" and 0 not in c.mv.shape and rng.random() < 0.2:
+                # built from an xobject array of another class (other axis order / static extents)
+                from xv.props.c01 import other_class_source
+                h = c.cls(other_class_source(t, c.mv, rng, c.cache, env), _buffer=env.buf)
+                w.count("built_from_array_of_other_class")
+            else:
+                h = build_root(c, rng)
         except Exception as e:
             w.violation(f"construct-{exc_kind(e)}", f"{type(e).__name__}: {e}", c.info)
             return
